@@ -282,10 +282,25 @@ def check_special(ctx, case):
                 echo = Node(forward=lambda n, x: np.asarray(n.state()) + 1.0, initializer=cnt_init)
             res = Reservoir(W=np.zeros((2, 2)), Win=np.zeros((2, 1)), Wfb=np.array([[1.], [0.]]), bias=np.zeros((2, 1)), activation="identity")
             res <<= echo
-            m = (echo >> res) if position == "upstream" else (res >> echo)
+            # a last node that raises on demand: a call that fails INSIDE a node (after the feedback snapshots were
+            # taken) must leave nothing behind for the next call
+            arm = [False]
+
+            def bomb_fwd(n, x):
+                if arm[0]:
+                    raise RuntimeError("injected failure")
+                return x * 1.0
+            bomb = Node(forward=bomb_fwd, initializer=dim_init)
+            m = (echo >> res >> bomb) if position == "upstream" else (res >> echo >> bomb)
             x = lambda v: np.array([[float(v)]])
             m.call(x(case["a"]))
             m.call(x(case["b"]))
+            arm[0] = True
+            try:
+                m.call(x(case["b"] + 3))
+            except RuntimeError:
+                pass
+            arm[0] = False
             seen_reset = np.asarray(m.call(x(case["c"]), reset=True, return_states=[res.name])[res.name])[0, 0]
             m.call(x(case["a"]))
             seen_from = np.asarray(m.call(x(case["c"]), from_state={echo.name: x(v0)}, return_states=[res.name])[res.name])[0, 0]
